@@ -190,6 +190,10 @@ def write_md(results):
 
 
 TRIAGE = {
+    ('src/layouts/de105.rs', 'KeyCode::E -> KeyCode::Escape'):
+        'equivalent with respect to the properties, same shape as the fi_se105 survivor: the renamed arm is shadowed by the earlier Escape arm, KeyCode::E '
+        'falls through to the US layout and only loses its AltGr level (the euro sign); base and Shift levels and Ctrl+E are what the US layout gives, '
+        'which is what the German layout prescribes.',
     ('src/layouts/fi_se105.rs', 'KeyCode::E -> KeyCode::Key0'):
         'equivalent with respect to the properties: the renamed arm is shadowed by the earlier Key0 arm, so KeyCode::E falls through to the US layout and only '
         'loses its AltGr level (the euro sign). No property requires a non-ASCII AltGr character to exist (C03 constrains AltGr characters that are present, '
